@@ -105,6 +105,7 @@ cdef class _ServiceBrowserBase(RecordUpdateListener):
     cdef public QueryScheduler query_scheduler
     cdef public bint done
     cdef public object _query_sender_task
+    cdef public cython.set _expired_at_start
 
     cpdef void _enqueue_callback(self, object state_change, object type_, object name)
 
